@@ -1,6 +1,7 @@
 package main
 
 import (
+	"regexp"
 	"bytes"
 	"math/rand"
 	"os"
@@ -43,6 +44,8 @@ func treeArgs(t Tree) [][]byte {
 	return out
 }
 
+var reCompareVerdict = regexp.MustCompile(`^Regex of (\S+) has (not )?changed!?$`)
+
 func implCLI(env *Env, op Op) Result {
 	a := op.Args
 	var files [][]byte
@@ -72,6 +75,15 @@ func implCLI(env *Env, op Op) Result {
 	case "cli.updateAll":
 		files = a[6:]
 		argv = []string{"regex", "update", "-a"}
+	case "cli.compareAll":
+		files = a[7:]
+		argv = []string{"regex", "compare", "-a"}
+		if string(a[0]) == "1" {
+			argv = append([]string{"-o", "github"}, argv...)
+		}
+	case "cli.compare":
+		files = a[7:]
+		argv = []string{"regex", "compare", string(a[6])}
 	default:
 		return Result{Status: "bad-op"}
 	}
@@ -96,6 +108,20 @@ func implCLI(env *Env, op Op) Result {
 	out := [][]byte{boolB(c.exit == 0)}
 	if op.Name == "cli.generate" {
 		return Result{Status: "ok", Out: append(out, c.stdout)}
+	}
+	if op.Name == "cli.compareAll" || op.Name == "cli.compare" {
+		// the verdicts, in the order printed (the difference display is not part of the model)
+		var same, diff []string
+		for _, l := range strings.Split(string(c.stdout), "\n") {
+			if m := reCompareVerdict.FindStringSubmatch(l); m != nil {
+				if m[2] == "not " {
+					same = append(same, m[1])
+				} else {
+					diff = append(diff, m[1])
+				}
+			}
+		}
+		return Result{Status: "ok", Out: append(out, []byte(strings.Join(same, ",")), []byte(strings.Join(diff, ",")))}
 	}
 	for i := 0; i+1 < len(files); i += 2 {
 		now, err := os.ReadFile(filepath.Join(sb, string(files[i])))
@@ -206,6 +232,12 @@ func cliCmdOps(ct *crsTree, argv []string) []Op {
 		return []Op{{"cli.update", append(append(append([][]byte{}, cfg...), []byte(argv[2])), files...)}}
 	case joined == "regex update -a":
 		return []Op{{"cli.updateAll", append(append([][]byte{}, cfg...), files...)}}
+	case joined == "regex compare -a":
+		return []Op{{"cli.compareAll", append(append([][]byte{[]byte("0")}, cfg...), files...)}}
+	case joined == "-o github regex compare -a":
+		return []Op{{"cli.compareAll", append(append([][]byte{[]byte("1")}, cfg...), files...)}}
+	case len(argv) == 3 && argv[0] == "regex" && argv[1] == "compare" && argv[2] != "-a":
+		return []Op{{"cli.compare", append(append(append([][]byte{}, cfg...), []byte(argv[2])), files...)}}
 	}
 	return nil
 }
